@@ -163,6 +163,8 @@ type roundOpts struct {
 	byzantine    bool // include adversarial observations
 	bigHistory   bool
 	proposalsMax int
+	bigHeights   bool // block numbers around 2^63 or just below 2^64
+	jumps        bool // the chain sometimes advances by hundreds or thousands of blocks between rounds
 }
 
 func newRoundWorld(r *Rng, opts roundOpts) *roundWorld {
@@ -175,6 +177,16 @@ func newRoundWorld(r *Rng, opts roundOpts) *roundWorld {
 	w := &roundWorld{r: r, n: n, f: f, digest: genHash(r), height: uint64(r.Range(50, 5000)), chain: map[uint64][32]byte{}, fork: map[uint64][32]byte{}, opts: opts}
 	if r.Chance(10) {
 		w.height = uint64(r.Range(1, 6)) // tiny chains
+	}
+	if opts.bigHeights {
+		switch r.Intn(3) {
+		case 0:
+			w.height = 1<<63 - uint64(r.Range(1, 40)) // crosses 2^63 during the chain
+		case 1:
+			w.height = 1<<63 + uint64(r.Range(0, 1000))
+		default:
+			w.height = ^uint64(0) - uint64(r.Range(200_000, 400_000)) // far above 2^63, room to grow
+		}
 	}
 	return w
 }
